@@ -317,7 +317,7 @@ def caseLine (op0 : String) (t : List String) (ptoks : List String) : String :=
 end CgiDrv
 
 /-- "h2data <cl> <body> <frames len.pad.end,...> <segmentation>" -/
-def h2dataLine (cl body frames : String) : String :=
+def CgiDrv.h2dataLine (cl body frames : String) : String :=
   match cl.toInt?, CgiDrv.bodyOf body with
   | some cl, some bodyBytes =>
     let specs := (frames.splitOn ",").map fun f => (f.splitOn ".").map String.toInt?
@@ -338,7 +338,7 @@ def h2dataLine (cl body frames : String) : String :=
 
 def cgiLine (toks : List String) : String :=
   match toks with
-  | ["h2data", cl, body, frames, _seg] => h2dataLine cl body frames
+  | ["h2data", cl, body, frames, _seg] => CgiDrv.h2dataLine cl body frames
   | op :: rest =>
     -- split at the "P" marker: everything after it is the parsed request
     let pre := rest.takeWhile (· ≠ "P")
